@@ -28,6 +28,7 @@ func (m *omap) find(k value) int {
 }
 
 func (m *omap) lookup(k value) (value, bool) {
+	segMapAccess(m, false)
 	if (isSym(k) || isSymStr(k)) && m != nil && len(m.keys) > 0 {
 		// one decision for membership; identify the entry only if values differ
 		alts := make([]string, len(m.keys))
